@@ -4,7 +4,7 @@
 (* stays empty while earlier slots keep their signatures, nothing with an empty *)
 (* signature can be serialised, and a verifier's error is never turned into     *)
 (* success.                                                                     *)
-EXTENDS CoseSystem, Json
+EXTENDS CoseSystem, Json, TraceKit
 Tr == ndJsonDeserialize("tr.ndjson")
 VARIABLE l
 
@@ -73,9 +73,9 @@ EntropyFails(e) ==
 
 Fails(e) == CASE e.flow = "sign" -> SignFails(e) [] e.flow = "verify" -> VerifyFails(e) [] e.flow = "entropy" -> EntropyFails(e)
 
-TInit == l = 1
+TInit == l = 1 /\ KitInit
 TNext == /\ l <= Len(Tr) /\ l' = l + 1
-         /\ LET f == Fails(Tr[l]) IN f = {} \/ PrintT(<<"REJECT", l, f>>)
+         /\ Note(l, Fails(Tr[l]))
 TSpec == TInit /\ [][TNext]_l
-Accepted == TLCGet("stats").diameter - 1 = Len(Tr)
+Accepted == KitDone(Len(Tr))
 =============================================================================
